@@ -1016,17 +1016,20 @@ EGLPNUM_TYPENAME_QSLIB_INTERFACE int EGLPNUM_TYPENAME_QSadd_cols (
 	const char **names)
 {
 	int rval = 0;
+	int ncols0;
 
 	rval = check_qsdata_pointer (p);
 	CHECKRVALG (rval, CLEANUP);
 
+	ncols0 = p->qslp->ncols;
 	rval = EGLPNUM_TYPENAME_ILLlib_addcols (p->lp, p->basis, num, cmatcnt, cmatbeg,
 												 cmatind, cmatval, obj, lower, upper, names,
 												 p->factorok);
-	if (rval)
+	if (rval && p->qslp->ncols != ncols0)
 	{
 		/* the columns that precede the rejected one have been added: the stored
-		 * solution and the factorization do not belong to the problem any more */
+		 * solution and the factorization do not belong to the problem any more
+		 * (a batch rejected as a whole leaves them alone) */
 		drop_devex_info (p);
 		free_cache (p);
 		p->factorok = 0;
@@ -1103,17 +1106,20 @@ EGLPNUM_TYPENAME_QSLIB_INTERFACE int EGLPNUM_TYPENAME_QSadd_ranged_rows (
 	const char **names)
 {
 	int rval = 0;
+	int nrows0;
 
 	rval = check_qsdata_pointer (p);
 	CHECKRVALG (rval, CLEANUP);
 
+	nrows0 = p->qslp->nrows;
 	rval = EGLPNUM_TYPENAME_ILLlib_addrows (p->lp, p->basis, num, rmatcnt, rmatbeg,
 												 rmatind, rmatval, rhs, sense, range,
 												 names, &(p->factorok));
-	if (rval)
+	if (rval && p->qslp->nrows != nrows0)
 	{
 		/* the rows that precede the rejected one have been added: the stored
-		 * solution and the factorization do not belong to the problem any more */
+		 * solution and the factorization do not belong to the problem any more
+		 * (a batch rejected as a whole leaves them alone) */
 		drop_devex_info (p);
 		free_cache (p);
 		p->factorok = 0;
@@ -1191,17 +1197,20 @@ EGLPNUM_TYPENAME_QSLIB_INTERFACE int EGLPNUM_TYPENAME_QSadd_rows (
 	const char **names)
 {
 	int rval = 0;
+	int nrows0;
 
 	rval = check_qsdata_pointer (p);
 	CHECKRVALG (rval, CLEANUP);
 
+	nrows0 = p->qslp->nrows;
 	rval = EGLPNUM_TYPENAME_ILLlib_addrows (p->lp, p->basis, num, rmatcnt, rmatbeg,
 												 rmatind, rmatval, rhs, sense, 0, names,
 												 &(p->factorok));
-	if (rval)
+	if (rval && p->qslp->nrows != nrows0)
 	{
 		/* the rows that precede the rejected one have been added: the stored
-		 * solution and the factorization do not belong to the problem any more */
+		 * solution and the factorization do not belong to the problem any more
+		 * (a batch rejected as a whole leaves them alone) */
 		drop_devex_info (p);
 		free_cache (p);
 		p->factorok = 0;
